@@ -1179,10 +1179,15 @@ class TBuilder:
             return cur
         if isinstance(t, Alt):
             end = self.new()
+            before, after = set(self.used), set(self.used)
             for x in t.items:
+                # alternatives are exclusive: each may write a tagged slot once
+                self.used = set(before)
                 a = self.new()
                 self.eps[cur].append(a)
                 self.eps[self.term(x, a, in_repeat)].append(end)
+                after |= self.used
+            self.used = after
             return end
         if isinstance(t, Star):
             if t.minn:
